@@ -88,6 +88,8 @@ def asgi_scenario(job, V):
                 if i == n:
                     return
                 item = {"data": f"item{i}"} if cls == "sse" else b"chunk%d" % i
+                if cls == "sse" and job.get("empty_event_at") == i:
+                    item = {}  # a field-less event (the one the class docstring shows): an ordinary item, not the end of the stream
                 log["yielded"].append((i, now()))
                 log["ahead"].append(i + 1 - sum(1 for _, m_ in log["sent"] if m_.get("body") and not m_["body"].startswith(b":")))
                 yield item
@@ -108,9 +110,26 @@ def asgi_scenario(job, V):
             await asyncio.sleep(V["sd"])
         log["sent"].append((now(), m))
 
+    class Source:
+        """a producer that is an async-iterator OBJECT with aclose() (a subscription, a channel's receive end) rather than a native generator"""
+
+        def __init__(self, agen):
+            self._g = agen
+
+        def __aiter__(self):
+            return self
+
+        async def __anext__(self):
+            return await self._g.__anext__()
+
+        async def aclose(self):
+            await self._g.aclose()
+
     async def app():
         g = gen()
         log["gen"] = g
+        if job.get("producer") == "object":
+            g = Source(g)
         if cls == "sse":
             r = AR.SendEventResponse(g, ping_interval=V["ping"])
         elif cls == "stream":
@@ -166,6 +185,8 @@ def check_asgi(e: Engine, job, V, log) -> str:
     # delivered data is an in-order duplicate-free prefix of what was yielded
     data = [m["body"] for t, m in bodies if m.get("body") and not m["body"].startswith(b":")]
     exp = [(f"data: item{i}\n\n".encode() if cls == "sse" else b"chunk%d" % i) for i in range(n)]
+    if cls == "sse" and job.get("empty_event_at") is not None:
+        exp[job["empty_event_at"]] = b"\n"
     if data != exp[:len(data)]:
         raise Fail("delivered-not-a-prefix-of-yielded", f"{data} vs {exp}")
     if len(data) > len(log["yielded"]):
@@ -437,6 +458,12 @@ def jobs(tier: str):
     for extra in (dict(), dict(raise_at=nf)):
         v = dict(kind="asgi", cls="sse", items=nf, fast_producer=True, name=f"asgi/sse/n{nf}/fast-producer{'-raise' if extra else ''}", weight=400, **extra)
         out.extend(_split(v, 8))
+    # the producer handed over as an iterator object with aclose()
+    for cls, n in (("stream", 2), ("sse", 1)):
+        v = dict(kind="asgi", cls=cls, items=n, producer="object", name=f"asgi/{cls}/n{n}/iterator-object-with-aclose/disconnect", weight=60)
+        out.extend(_split(v, 9) if cls == "sse" else [v])
+    # a field-less event in the middle of the stream
+    out.append(dict(kind="asgi", cls="sse", items=3, fast_producer=True, never_disconnect=True, empty_event_at=1, name="asgi/sse/n3/empty-event-in-the-middle", weight=100))
     # a long backlog produced without ever waiting (in-memory data): 8 items, the hand-off must pace the producer
     v = dict(kind="asgi", cls="sse", items=8, fast_producer=True, never_disconnect=True, name="asgi/sse/n8/fast-producer-backlog", weight=300)
     out.append(v)
